@@ -4,3 +4,5 @@ import Gomjml.Props.C12
 #print axioms Gomjml.Props.C12.C12_attrs_iterations
 #print axioms Gomjml.Props.C12.C12_debug_only_adds
 #print axioms Gomjml.Props.C12.C12_debug_sites
+#print axioms Gomjml.Props.C12.C12_tree_structure
+#print axioms Gomjml.Props.C12.C12_text_reads
